@@ -792,6 +792,9 @@ func (sr *srcRenderer) genFunc(name string, prog []any, trailing string) string 
 		case "generic": // a generic generator function, instantiated by a plain wrapper
 			return fmt.Sprintf("func %sg[Z any](r *rt.Rec, a, b int, _ Z) %s {\n%s%s}\n\nfunc %s(r *rt.Rec, a, b int) %s { return %sg[string](r, a, b, \"\") }\n%s",
 				name, it, prolog, body, name, it, name, tailDecl)
+		case "hygiene": // a parameter named like the ELEMENT TYPE (package-level `type a = int`): legal Go, the generated
+			// type arguments Bind[a](..) must still denote the type inside the body, where `a` is the variable
+			return fmt.Sprintf("func %s(r *rt.Rec, a, b a) %sIter[a] {\n%s%s}\n%s", name, sr.api, prolog, body, tailDecl)
 		case "lit": // a function literal bound to a package-level variable
 			return fmt.Sprintf("var %s = func(r *rt.Rec, a, b int) %s {\n%s%s}\n%s", name, it, prolog, body, tailDecl)
 		case "nestedlit": // a generator literal nested in a generator literal (which delegates to it)
